@@ -1161,3 +1161,140 @@ var ruleAnnA8 = &Rule{
 		return obs
 	},
 }
+
+// ---------------------------------------------------------------------------------------------
+// ANN/A9: the type printer writes the element type of an array as a primary
+
+var ruleAnnA9 = &Rule{
+	Name:    "ANN/A9-array-item-parenthesised",
+	NeedSSA: true,
+	Text:    "the annotation grammar gives `[]` to a primary type, so a union or function type that is the element of an array was written in parentheses. The type printer (annotateast.TypeConvertStr) must write it the same way: the value it concatenates with \"[]\" is, on some path, built with a \"(\" — and the function tests the array's ItemType for *MultiType (a type assertion or type-switch arm on a value loaded from the ItemType field). Without both, `(string|number)[]` is printed as `string | number[]`, which reads back as another type (printing the understood type and reading it again gives the same type)",
+	Run: func(c *Ctx) []Ob {
+		f := c.SSAFunc(modPath+"/langserver/check/annotation/annotateast", "", "TypeConvertStr")
+		if f == nil {
+			return []Ob{{Key: "ANN/A9:slot", Verdict: UNDECIDED, Note: "slot unresolved: annotateast.TypeConvertStr"}}
+		}
+		isStr := func(v ssa.Value, s string) bool {
+			k, ok := v.(*ssa.Const)
+			return ok && k.Value != nil && k.Value.Kind() == constant.String && constant.StringVal(k.Value) == s
+		}
+		// (1) the concatenation with "[]"
+		var arr *ssa.BinOp
+		for _, b := range f.Blocks {
+			for _, ins := range b.Instrs {
+				if bo, ok := ins.(*ssa.BinOp); ok && bo.Op == token.ADD && isStr(bo.Y, "[]") {
+					arr = bo
+				}
+			}
+		}
+		if arr == nil {
+			return []Ob{{Key: "ANN/A9:TypeConvertStr", Site: c.Pos(f.Pos()), Verdict: UNDECIDED, Note: "no concatenation with \"[]\" found: the array case of the printer is not recognisable"}}
+		}
+		// (2) its left operand can be a string that starts with "("
+		paren := false
+		seen := map[ssa.Value]bool{}
+		var walk func(v ssa.Value, d int)
+		walk = func(v ssa.Value, d int) {
+			if d > 8 || seen[v] || paren {
+				return
+			}
+			seen[v] = true
+			switch x := v.(type) {
+			case *ssa.Phi:
+				for _, e := range x.Edges {
+					walk(e, d+1)
+				}
+			case *ssa.BinOp:
+				if x.Op == token.ADD {
+					if isStr(x.X, "(") {
+						paren = true
+						return
+					}
+					walk(x.X, d+1)
+				}
+			case *ssa.UnOp:
+				if al, ok := x.X.(*ssa.Alloc); ok && x.Op == token.MUL && al.Referrers() != nil {
+					for _, r := range *al.Referrers() {
+						if st, ok := r.(*ssa.Store); ok && st.Addr == al {
+							walk(st.Val, d+1)
+						}
+					}
+				}
+			case *ssa.Call:
+				// a helper that wraps the element (parenthesise(s))
+				if g := x.Call.StaticCallee(); g != nil && g.Blocks != nil && g != f {
+					for _, gb := range g.Blocks {
+						if r, ok := gb.Instrs[len(gb.Instrs)-1].(*ssa.Return); ok && len(r.Results) == 1 {
+							walk(r.Results[0], d+1)
+						}
+					}
+				}
+			}
+		}
+		walk(arr.X, 0)
+		// (3) the item type is tested for *MultiType
+		tested := false
+		fromItem := func(v ssa.Value) bool {
+			s2 := map[ssa.Value]bool{}
+			var w func(v ssa.Value, d int) bool
+			w = func(v ssa.Value, d int) bool {
+				if d > 8 || s2[v] {
+					return false
+				}
+				s2[v] = true
+				switch x := v.(type) {
+				case *ssa.UnOp:
+					if fa, ok := x.X.(*ssa.FieldAddr); ok && fieldName(fa.X.Type(), fa.Field) == "ItemType" {
+						return true
+					}
+					if al, ok := x.X.(*ssa.Alloc); ok && al.Referrers() != nil {
+						for _, r := range *al.Referrers() {
+							if st, ok := r.(*ssa.Store); ok && st.Addr == al && w(st.Val, d+1) {
+								return true
+							}
+						}
+					}
+				case *ssa.Phi:
+					for _, e := range x.Edges {
+						if w(e, d+1) {
+							return true
+						}
+					}
+				case *ssa.Extract:
+					return w(x.Tuple, d+1)
+				case *ssa.TypeAssert:
+					return w(x.X, d+1)
+				case *ssa.Index:
+					return w(x.X, d+1)
+				case *ssa.IndexAddr:
+					return w(x.X, d+1)
+				case *ssa.FieldAddr:
+					return w(x.X, d+1)
+				}
+				return false
+			}
+			return w(v, 0)
+		}
+		for _, b := range f.Blocks {
+			for _, ins := range b.Instrs {
+				ta, ok := ins.(*ssa.TypeAssert)
+				if !ok {
+					continue
+				}
+				if _, nm := namedPkgName(ta.AssertedType); nm == "MultiType" && fromItem(ta.X) {
+					tested = true
+				}
+			}
+		}
+		key := "ANN/A9:TypeConvertStr"
+		if paren && tested {
+			return []Ob{{Key: key, Site: c.Pos(arr.Pos()), Verdict: OK, Note: "the array case tests the element type for a union and can write it in parentheses"}}
+		}
+		why := "the text in front of \"[]\" is never built with \"(\""
+		if paren {
+			why = "the element type is never tested for *MultiType"
+		}
+		return []Ob{{Key: key, Site: c.Pos(arr.Pos()), Verdict: VIOLATION,
+			Note: "the type printer writes an array as <element>[] and " + why + ": `(string|number)[]` is printed as `string | number[]`, which reads back as a different type"}}
+	},
+}
